@@ -298,6 +298,31 @@ func families(full bool) []group {
 		c.Params = []P{{Name: "f", In: "form", Type: "array", Items: "string", CF: cf}}
 		add(listSweep("form-urlencoded-array", c, 0, ls))
 	}
+	// 7b. consumes LISTS of form operations (the client operation carries the list of the description)
+	{
+		lists := [][]string{{"urlencoded"}, {"urlencoded", "json"}, {"multipart", "json"}, {"urlencoded", "multipart"}, {"multipart", "urlencoded"},
+			{"json", "urlencoded"}, {"", "urlencoded", "json"}, {"", "multipart", "text"}, {"urlencoded", "application/x-unregistered"}, {"multipart", "bytes", "json"}}
+		for _, l := range lists {
+			for _, m := range pick([]string{"POST"}, []string{"POST", "PUT"}) {
+				c := base
+				c.Method, c.ConsumesList, c.Consumes = m, l, firstNonEmpty(l)
+				c.Params = []P{{Name: "f", In: "form", Type: "string"}}
+				add(sweep("form-consumes-list", c, 0, vals))
+			}
+			for _, auth := range []string{"body1", "compose"} {
+				c := base
+				c.Method, c.ConsumesList, c.Consumes = "POST", l, firstNonEmpty(l)
+				setAuth(&c, auth)
+				c.Params = []P{{Name: "f", In: "form", Type: "string"}, {Name: "g", In: "form", Type: "array", Items: "string", CF: "multi", V: []BS{"1", "", "a b"}}, {Name: "q", In: "query", Type: "string", V: []BS{"q&f=x"}}}
+				add(sweep("form-consumes-list", c, 0, atoms))
+			}
+			// with a file the request is multipart whatever the list says
+			c := base
+			c.Method, c.ConsumesList, c.Consumes = "POST", l, firstNonEmpty(l)
+			c.Params = []P{{Name: "up", In: "file", Type: "file", Fname: "a.txt", Flen: 513, Fpat: 1}, {Name: "f", In: "form", Type: "string"}}
+			add(sweep("form-consumes-list", c, 1, atoms))
+		}
+	}
 	// 8. multipart form fields
 	for _, m := range bodyMethods {
 		for _, auth := range authsStreamed {
@@ -821,6 +846,7 @@ var familyAxes = map[string]string{
 	"header-array":               "collectionFormat {none csv pipes} x item lists over the valid atoms",
 	"form-urlencoded":            "methods {POST PUT PATCH DELETE} x auth writer axis x values; field names {$top, filter[a], 'a b', é, a&b=c} x atoms",
 	"form-urlencoded-array":      "collectionFormat {none csv ssv tsv pipes multi} x item lists",
+	"form-consumes-list":         "consumes lists {[urlencoded], [urlencoded json], [multipart json], [urlencoded multipart], [multipart urlencoded], [json urlencoded] (first entry cannot carry a form: executed, not judged), [\"\" urlencoded json], [\"\" multipart text], [urlencoded unregistered-type], [multipart bytes json]} given to the description and verbatim to the client operation x methods {POST PUT} x values for one field; x auth {GetBody once, Compose} x atoms with a field, a multi array and a query value; x atoms with a file and a field",
 	"form-multipart":             "methods {POST PUT PATCH DELETE} x auth writer x values; field names {$top, filter[a], 'a b', é, a\"b, a\\b, a;b} x atoms",
 	"form-multipart-array":       "collectionFormat {csv pipes multi} x item lists",
 	"file":                       "lengths {0 1 2 511 512 513 5000 70000} x 18 file names (quotes, backslashes, directories, non-ASCII, empty, dot-dot, control bytes) x 2 content patterns x with/without a form field x auth writer; file parameter names x lengths; two files x lengths x lengths; 1 MiB and 5 MiB files",
@@ -838,7 +864,7 @@ var familyAxes = map[string]string{
 	"long-values":                "lengths {255 256 4096 65536} x 3 repeating units, the same value in path, query, header, body/field and echoed back",
 	"media-type-spelling":        "consumes / produces spelled with a charset parameter (application/json, text/plain)",
 	"template-composite-segment": "base paths {/api, /} x templates {/files/{id}-x, /files/{id}.json/meta, /files/v{id}, /files/v{id}.json} x atoms without the literal characters; templates {/files/{a}-{b}, /files/{a}.{b}/z} x those atoms x those atoms",
-	"sequences-on-one-instance":  "per world (base path /api; thorough also /): one description with 7 operations (POST /things with a string body in json/text/bytes and json/text responses; POST /things/{id}; PUT /things with an object body; POST /forms in urlencoded and multipart; GET /things producing json/text/bytes; POST /upload; GET /things/{id}/sub), an alphabet of 47 round trips over them (different media types, values, statuses, the whole auth writer axis on the streamed bodies); EVERY ordered pair of the alphabet (2209), thorough: every ordered triple of 19 core steps (6859), and the whole alphabet forward then backward (94 steps) - each sequence on ONE server instance and ONE client.Runtime, every step judged by the identity oracle and compared with the observation of the same step alone on a fresh instance; kept values: every decoded response body handed to the reader and every bound value handed to the handler is deep-copied at delivery and re-compared after every later step (class in-sequence/kept-value-changed-later); plus, with a NEW server and Runtime for every step (only the process shared): the long history and every ordered pair of the steps with a binary body",
+	"sequences-on-one-instance":  "per world (base path /api; thorough also /): one description with 7 operations (POST /things with a string body in json/text/bytes and json/text responses; POST /things/{id}; PUT /things with an object body; POST /forms in urlencoded and multipart; GET /things producing json/text/bytes; POST /upload; GET /things/{id}/sub), an alphabet of 49 round trips over them (different media types, values, statuses, the whole auth writer axis on the streamed bodies); EVERY ordered pair of the alphabet (2401), thorough: every ordered triple of 20 core steps (8000), and the whole alphabet forward then backward (98 steps) - each sequence on ONE server instance and ONE client.Runtime, every step judged by the identity oracle and compared with the observation of the same step alone on a fresh instance; kept values: every decoded response body handed to the reader and every bound value handed to the handler is deep-copied at delivery and re-compared after every later step (class in-sequence/kept-value-changed-later); plus, with a NEW server and Runtime for every step (only the process shared): the long history and every ordered pair of the steps with a binary body",
 	"auth-writer-axis":           "wherever a family says auth writer: {none, header-only writer, GetBody once, twice, three times, client.Compose of two writers that each call GetBody}; families with a streamed body (multipart forms, files, reader payloads, string-schema bodies) take all six in both tiers, families with a buffered body (urlencoded, JSON) take {none, once, twice} in quick and all six in thorough",
 	"kept-values-single-cases":   "in every single-round-trip family the values delivered by a case are re-compared after each of the next 4 cases of its group (new Runtime per case, same process): class kept-value-changed-later",
 	"sequences-baseline-alone":   "each step of the alphabet alone on a fresh instance of the world's description",
